@@ -39,10 +39,13 @@ AllWraps(x) == WUn(x) \cup WArith(x) \cup WCmp(x) \cup WEq(x) \cup WLogic(x) \cu
                \cup WObject(x) \cup WIndex(x) \cup WAttr(x) \cup WLegacy(x) \cup WSplat(x) \cup WFor(x) \cup WCall(x) \cup WTpl(x)
 
 FewLeaves == {NVar("l"), NNum(2), StrLit("a")}
-Bases == IF BaseMode = "few" THEN UNION {Core(x) : x \in FewLeaves} \cup UNION {WTpl(x) \cup WFor(x) \cup WSplat(x) : x \in {NVar("l")}}
+MidLeaves == {NVar("l"), NNum(2), StrLit("a"), NVar("o"), NVar("s"), NNull, NVar("zz"), NVar("m")}
+Bases == IF BaseMode = "mid" THEN UNION {Core(x) \cup WTpl(x) \cup WFor(x) \cup WSplat(x) \cup WCall(x) \cup WIndex(x) \cup WObject(x) : x \in MidLeaves}
+         ELSE IF BaseMode = "few" THEN UNION {Core(x) : x \in FewLeaves} \cup UNION {WTpl(x) \cup WFor(x) \cup WSplat(x) : x \in {NVar("l")}}
          ELSE UNION {AllWraps(x) : x \in Leaves}
 
-DInit == e \in Bases /\ dmg = <<>> /\ d = 0 /\ pred = ROom /\ last = "base" /\ fv = {}
+BaseSeq == SetToSeq(Bases)
+DInit == (\E i \in 1..Len(BaseSeq) : i % NParts = Part /\ e = BaseSeq[i]) /\ dmg = <<>> /\ d = 0 /\ pred = ROom /\ last = "base" /\ fv = {}
 DNext == /\ Len(dmg) < MaxK
          /\ \E x \in Damages : dmg' = Append(dmg, x)
          /\ UNCHANGED <<e, d, pred, last, fv>>
